@@ -38,6 +38,153 @@ def reduce_atoms(p, alg_atoms):
     return Poly({m: P._norm(c) for m, c in r.items()})
 
 
+def reduce_squares(p, sq_atoms, limit=12):
+    """rewrite s^e -> a^(e//2) s^(e%2) for atoms s with s^2 = a (a polynomial): sqrt/abs atoms"""
+    if not sq_atoms:
+        return p
+    for _ in range(limit):
+        hit = [v for v in p.vars() if v in sq_atoms]
+        todo = False
+        for v in hit:
+            if any(e >= 2 for m in p.t for (w, e) in m if w == v):
+                todo = True
+                a = sq_atoms[v]
+                out = Poly()
+                for m, c in p.t.items():
+                    e = 0
+                    rest = []
+                    for w, ee in m:
+                        if w == v:
+                            e = ee
+                        else:
+                            rest.append((w, ee))
+                    term = Poly({tuple(rest): c})
+                    if e >= 2:
+                        term = term * (a ** (e // 2))
+                        if e % 2:
+                            term = term * Poly({((v, 1),): 1})
+                    elif e == 1:
+                        term = term * Poly({((v, 1),): 1})
+                    out = out + term
+                p = out
+        if not todo:
+            break
+    return p
+
+
+def clear_inverses(g, inv_atoms):
+    """multiply g by the (non-zero, A3) bases of its inverse atoms until none is left.
+
+    inv_atoms: var id -> base polynomial with  var * base = 1.  Returns (g', list of factors)."""
+    factors = []
+    for _ in range(200):
+        vs = [v for v in g.vars() if v in inv_atoms]
+        if not vs:
+            break
+        v = max(vs)
+        base = inv_atoms[v]
+        parts = {}
+        emax = 0
+        for m, c in g.t.items():
+            e = 0
+            rest = []
+            for w, ee in m:
+                if w == v:
+                    e = ee
+                else:
+                    rest.append((w, ee))
+            emax = max(emax, e)
+            parts.setdefault(e, {})
+            key = tuple(rest)
+            parts[e][key] = parts[e].get(key, 0) + c
+        out = Poly()
+        pw = {0: Poly.const(1)}
+        for k in range(1, emax + 1):
+            pw[k] = pw[k - 1] * base
+        for e, d in parts.items():
+            out = out + Poly({m: c for m, c in d.items() if c != 0}) * pw[emax - e]
+        g = out
+        factors.append((v, emax))
+    return g, factors
+
+
+def split_free(goals, hyps):
+    """a goal that is a polynomial in variables no hypothesis mentions vanishes on the solution set of
+    the hypotheses for all values of those variables iff each of its coefficients does"""
+    hv = set()
+    for h in hyps:
+        hv |= h.vars()
+    out = []
+    seen = set()
+    for g in goals:
+        free = g.vars() - hv
+        if not free:
+            parts = [g]
+        else:
+            groups = {}
+            for m, c in g.t.items():
+                fm = tuple((v, e) for v, e in m if v in free)
+                rm = tuple((v, e) for v, e in m if v not in free)
+                groups.setdefault(fm, {})[rm] = c
+            parts = [Poly(d) for d in groups.values()]
+        for q in parts:
+            if not q.t:
+                continue
+            lead = min(q.t)          # canonical scaling
+            c0 = q.t[lead]
+            qn = q.scale(Fraction(1) / Fraction(c0)) if c0 != 1 else q
+            if qn in seen:
+                continue
+            seen.add(qn)
+            out.append(qn)
+    return out
+
+
+def derive_pairwise(hyps, defined):
+    """extra consequences: when the input-only parts of two hypotheses are proportional (up to a
+    unit monomial), their combination is a relation between defined variables only"""
+    if not defined:
+        return []
+    groups = {}
+    for h in hyps:
+        ip = {}
+        for m, c in h.t.items():
+            if not any(v in defined for v, _ in m):
+                ip[m] = c
+        if len(ip) < 2 or len(ip) == len(h.t):
+            continue
+        # normalise by the componentwise-min unit exponents and the coefficient of the least monomial
+        ue = {}
+        for m in ip:
+            d = dict((v, e) for v, e in m if v in P.UNITS)
+            for v in set(list(ue) + list(d)):
+                pass
+        units = set(v for m in ip for v, _ in m if v in P.UNITS)
+        shift = []
+        for v in sorted(units):
+            mn = min(dict(m).get(v, 0) for m in ip)
+            if mn != 0:
+                shift.append((v, -mn))
+        shift = tuple(shift)
+        ipn = {mono_mul(m, shift): c for m, c in ip.items()}
+        lead = min(ipn)
+        c0 = Fraction(ipn[lead])
+        key = frozenset((m, Fraction(c) / c0) for m, c in ipn.items())
+        groups.setdefault(key, []).append((h, shift, c0))
+    out = []
+    for key, lst in groups.items():
+        if len(lst) < 2:
+            continue
+        h0, s0, c0 = lst[0]
+        a0 = (h0 * Poly({s0: 1})).scale(Fraction(1) / c0) if s0 else h0.scale(Fraction(1) / c0)
+        for h1, s1, c1 in lst[1:]:
+            a1 = (h1 * Poly({s1: 1})).scale(Fraction(1) / c1) if s1 else h1.scale(Fraction(1) / c1)
+            d = a0 - a1
+            if d.t:
+                out.append(d)
+    return out
+
+
 class Result:
     def __init__(self):
         self.status = None     # 'proved' | 'trivial' | 'not_proved'
@@ -49,10 +196,14 @@ class Result:
         self.wall_s = 0.0
         self.maxdeg = None
         self.queries = 0
+        self.cleared = 0
+        self.n_split = 0
+        self.derived = 0
 
     def as_dict(self):
         return {k: getattr(self, k) for k in
-                ("status", "goal_status", "rows", "monos", "rounds", "solver_s", "wall_s", "maxdeg", "queries")}
+                ("status", "goal_status", "rows", "monos", "rounds", "solver_s", "wall_s", "maxdeg", "queries",
+                 "cleared", "n_split", "derived")}
 
 
 class _Lra:
@@ -99,24 +250,51 @@ class _Lra:
         return r, per, q
 
 
-def prove(hyps, goals, *, alg_atoms=None, extra_deg=2, maxdeg=None, max_rounds=10, max_rows=120000,
-          timeout_ms=120000, budget_s=300.0, max_terms=3_000_000, log=None):
-    """Try to show that every goal is zero given hyps (all == 0)."""
+def prove(hyps, goals, *, alg_atoms=None, sq_atoms=None, inv_atoms=None, defined=None, extra_deg=2, maxdeg=None,
+          max_rounds=24, max_rows=120000, timeout_ms=120000, budget_s=300.0, max_terms=3_000_000, log=None):
+    """Try to show that every goal is zero given hyps (all == 0).
+
+    Pre-processing (all sound): inverse atoms are cleared by multiplying with their non-zero bases
+    (A3), squares of sqrt/abs atoms are rewritten by their defining equation, goals are split into
+    the coefficients of variables that no hypothesis constrains."""
     t0 = time.time()
     res = Result()
     alg_atoms = alg_atoms or {}
-    hyps = [reduce_atoms(h, alg_atoms) for h in hyps]
-    hyps = [h for h in hyps if h.t]
-    goals_all = [reduce_atoms(g, alg_atoms) for g in goals]
-    idx = [i for i, g in enumerate(goals_all) if g.t]
+    sq_atoms = sq_atoms or {}
+    inv_atoms = inv_atoms or {}
+
+    def norm(p):
+        return reduce_atoms(reduce_squares(p, sq_atoms), alg_atoms)
+    hyps0 = hyps
+    hyps = []
+    for h in hyps0:
+        h = norm(h)
+        if h.vars() & set(inv_atoms):
+            h, _ = clear_inverses(h, inv_atoms)   # a hypothesis times non-zero factors is a consequence
+            h = norm(h)
+        if h.t:
+            hyps.append(h)
+    derived = derive_pairwise(hyps, set(defined or ()))
+    res.derived = len(derived)
+    hyps = derived + hyps
+    goals_all = []
+    res.cleared = 0
+    for g in goals:
+        g = norm(g)
+        g2, fac = clear_inverses(g, inv_atoms)
+        res.cleared += len(fac)
+        goals_all.append(norm(g2))
     res.goal_status = ["trivial"] * len(goals_all)
-    if not idx:
+    if all(not g.t for g in goals_all):
         res.status = "trivial"
         res.wall_s = time.time() - t0
         return res
-    goals = [goals_all[i] for i in idx]
+    goals = split_free([g for g in goals_all if g.t], hyps)
+    res.n_split = len(goals)
+    idx = list(range(len(goals)))
+    res.goal_status = ["trivial"] * len(goals)
     if maxdeg is None:
-        maxdeg = max(g.deg() for g in goals) + extra_deg
+        maxdeg = max(max(g.deg() for g in goals), max((h.deg() for h in hyps), default=0)) + extra_deg
     res.maxdeg = maxdeg
     lra = _Lra(timeout_ms)
     rel = set()
